@@ -48,6 +48,8 @@ __CPROVER_ensures(INV(oth))
 __CPROVER_assigns(self->ptr_, self->buf_, oth->ptr_, oth->buf_, g_T_constructed, g_T_destroyed)
 #include "OpResult_ctor_move.body.inc"
 
+T_cell* OpResult_emplace(OpResult* self, T_tag args);
+
 OpResult* OpResult_assign_copy(OpResult* self, const OpResult* oth)
 __CPROVER_requires(INV(self))
 __CPROVER_requires(INV(oth))
